@@ -31,6 +31,36 @@ class Packer:
         self.prog, self.f, self.inputs = prog, f, inputs
         self.out = {}          # (kind, name, index) -> bits
         self.env = {}
+        self.ints = {}         # integer locals with a known constant value (loop counters of fixed-count loops)
+        self.partial = None    # why the walk stopped before the end of the function, if it did
+
+    def ival(self, e):
+        """Concrete value of an integer expression over literals and counters with known values, else None."""
+        e = strip(e)
+        k = kind(e)
+        if k == "int":
+            return int_val(e)
+        if k == "var":
+            return self.ints.get(e[1])
+        if k == "bin" and e[1] in ("+", "-", "*", "/", "%", "<<", ">>"):
+            a, b = self.ival(e[2]), self.ival(e[3])
+            if a is None or b is None or (e[1] in ("/", "%") and b == 0):
+                return None
+            return {"+": a + b, "-": a - b, "*": a * b, "/": a // b if b else 0, "%": a % b if b else 0, "<<": a << b, ">>": a >> b}[e[1]]
+        return None
+
+    def cond(self, c):
+        c = strip(c)
+        if kind(c) == "un" and c[1] == "!":
+            v = self.cond(c[2])
+            return None if v is None else (not v)
+        if kind(c) == "bin" and c[1] in ("<", "<=", ">", ">=", "==", "!="):
+            a, b = self.ival(c[2]), self.ival(c[3])
+            if a is None or b is None:
+                return None
+            return {"<": a < b, "<=": a <= b, ">": a > b, ">=": a >= b, "==": a == b, "!=": a != b}[c[1]]
+        v = self.ival(c)
+        return None if v is None else (v != 0)
 
     def sym_bytes(self, name, k):
         return {j: ("b", name, k, j) for j in range(8)}
@@ -40,7 +70,8 @@ class Packer:
 
     def lhs_key(self, e):
         e = strip(e)
-        if kind(e) == "index" and is_int(e[2]):
+        if kind(e) == "index" and self.ival(e[2]) is not None:
+            e = ["index", e[1], ["int", str(self.ival(e[2])), 32]]
             b = strip(e[1])
             if kind(b) == "var":
                 return ("bytes", b[1], int_val(e[2])), 8
@@ -64,10 +95,12 @@ class Packer:
         if k == "var":
             if e[1] in self.env:
                 return dict(self.env[e[1]])
+            if e[1] in self.ints:
+                return _const(self.ints[e[1]] & MASK64)
             raise Unknown("variable %s" % e[1])
-        if k == "index" and is_int(e[2]):
+        if k == "index" and self.ival(e[2]) is not None:
             b = strip(e[1])
-            idx = int_val(e[2])
+            idx = self.ival(e[2])
             if kind(b) == "var" and ("bytes", b[1]) in self.inputs:
                 return self.sym_bytes(b[1], idx)
             if kind(b) == "var" and ("bytes", b[1], idx) in self.out:
@@ -86,9 +119,9 @@ class Packer:
         if k == "bin":
             op = e[1]
             if op in ("<<", ">>"):
-                if not is_int(e[3]):
+                if self.ival(e[3]) is None or self.ival(e[3]) < 0:
                     raise Unknown("variable shift")
-                s = int_val(e[3])
+                s = self.ival(e[3])
                 v = self.ev(e[2])
                 if op == "<<":
                     return {p + s: b for p, b in v.items() if p + s < 64}
@@ -110,6 +143,9 @@ class Packer:
                 out = dict(a)
                 for p, x in b.items():
                     if p in out and not (op == "|" and out[p] == x):
+                        if op == "|":
+                            out[p] = ("conflict", out[p], x)       # two different bits or-ed into one position: never a layout
+                            continue
                         raise Unknown("overlapping operands of %s" % op)
                     out[p] = x
                 return out
@@ -139,13 +175,48 @@ class Packer:
 
     def run(self):
         f = self.f
-        # straight-line: walk the blocks in reverse post-order, no branches allowed to matter
-        for bid in f.rpo():
-            for el in f.blocks[bid].elems:
+        # walk the CFG from the entry; branch conditions must be decidable from constants and fixed-count loop counters
+        # (constant propagation: a loop `for (i = 0; i < 6; i++)` is followed iteration by iteration)
+        bid, steps = f.entry, 0
+        while bid is not None and steps < 4000:
+            steps += 1
+            blk = f.blocks[bid]
+            self._block(blk)
+            succs = [(s_, pol) for (s_, pol) in f.succ_edges(bid) if s_ is not None]
+            if not succs:
+                break
+            if len(succs) == 1 or blk.cond is None:
+                bid = succs[0][0]
+                continue
+            v = self.cond(blk.cond)
+            if v is None:
+                self.partial = "branch on `%s`" % show(blk.cond)[:40]     # data-dependent control flow: what was stored so far stands
+                break
+            nxt = [s_ for (s_, pol) in succs if pol == v]
+            bid = nxt[0] if nxt else None
+        if steps >= 4000:
+            raise Unknown("no end of the walk")
+        return self.out
+
+    def _block(self, blk):
+        if True:
+            for el in blk.elems:
                 if not el.top:
                     continue
                 e = el.e
                 k = kind(e)
+                if k == "incdec" and kind(strip(e[3])) == "var" and strip(e[3])[1] in self.ints:
+                    self.ints[strip(e[3])[1]] += 1 if e[1] == "++" else -1
+                    continue
+                if k == "assign" and kind(strip(e[2])) == "var" and self.ival(e[3]) is not None and e[1] in ("=", "+=", "-="):
+                    v_ = strip(e[2])[1]
+                    if e[1] == "=":
+                        self.ints[v_] = self.ival(e[3])
+                        self.env.pop(v_, None)
+                        continue
+                    if v_ in self.ints:
+                        self.ints[v_] += self.ival(e[3]) if e[1] == "+=" else -self.ival(e[3])
+                        continue
                 if k == "assign":
                     try:
                         key, width = self.lhs_key(e[2])
@@ -174,7 +245,13 @@ class Packer:
                 elif k == "decls":
                     for d in e[1:]:
                         if d[2] is not None:
-                            self.env[d[1]] = self.ev(d[2])
+                            if self.ival(d[2]) is not None:
+                                self.ints[d[1]] = self.ival(d[2])
+                            else:
+                                try:
+                                    self.env[d[1]] = self.ev(d[2])
+                                except Unknown:
+                                    self.env.pop(d[1], None)
                 elif k == "call" and callee_name(e) in ("secp256k1_write_be32", "secp256k1_write_be64"):
                     nb = 4 if callee_name(e).endswith("32") else 8
                     a = strip(e[3][0])
@@ -189,7 +266,6 @@ class Packer:
                     for i in range(nb):
                         self.out[("bytes", nm, base + i)] = {j: v[8 * (nb - 1 - i) + j] for j in range(8) if 8 * (nb - 1 - i) + j in v}
                 # everything else (VERIFY helpers, void calls) has no effect on the packing
-        return self.out
 
 
 def _layout(prog):
@@ -214,6 +290,7 @@ def obligations(prog):
     L = _layout(prog)
     W, fn = L["W"], L["fe_n"]
     obs = []
+    undecided = []
 
     def fe_valid(k):
         return min(W, 256 - W * k)
@@ -229,10 +306,13 @@ def obligations(prog):
         if f is None or not f.blocks:
             raise AnalysisBroken("R-PACK: function %s vanished" % fname)
         try:
-            out = Packer(prog, f, inputs).run()
+            pk = Packer(prog, f, inputs)
+            out = pk.run()
         except Unknown as ex:
-            obs.append(Obligation("R-PACK", "R-PACK:%s" % fname, f.loc, fname, what, False,
-                                  "not a straight-line bit shuffle any more (%s): cannot be decided bit by bit" % ex, props=props))
+            # a shape the bit evaluator cannot follow is *not decided*, never an alarm; the count of decided functions is floored
+            undecided.append(fname)
+            obs.append(Obligation("R-PACK", "R-PACK:%s" % fname, f.loc, fname, what, True,
+                                  "NOT DECIDED: the function is no longer a bit shuffle the evaluator can follow (%s)" % ex, props=props))
             return
         bad = []
         seen = 0
@@ -244,6 +324,11 @@ def obligations(prog):
                 diff = sorted(set(got.items()) ^ set(want.items()), key=repr)[:3]
                 bad.append("%s[%d]: %s" % (key[1], key[2], ", ".join("bit %d is %s" % (p, b if (p, b) in got.items() else "missing (should be %s)" % (b,)) for p, b in diff)))
         ok = not bad and seen == n_out
+        if not ok and pk.partial and all("missing" in b_ for b_ in bad) and not any("conflict" in b_ for b_ in bad):
+            undecided.append(fname)
+            obs.append(Obligation("R-PACK", "R-PACK:%s" % fname, f.loc, fname, what, True,
+                                  "NOT DECIDED: the walk stopped at a data-dependent %s before all outputs were stored" % pk.partial, props=props))
+            return
         obs.append(Obligation("R-PACK", "R-PACK:%s" % fname, f.loc, fname, what, ok,
                               ("all %d output words / bytes carry exactly the bits the layout defines" % seen) if ok else "; ".join(bad[:3]), props=props))
 
@@ -301,7 +386,9 @@ def obligations(prog):
                 obs.append(Obligation("R-PACK", "R-PACK:%s" % fname, f.loc, fname, "%s reads %d bytes big-endian" % (fname, nb), False, str(ex), props={"C05"}))
     if len(obs) < 7:
         raise AnalysisBroken("R-PACK: only %d packing functions analysed" % len(obs))
-    return obs, {"functions": len(obs), "representation": "%dx%d field, %dx%d scalar" % (fn, W, sn, sw)}
+    if len(undecided) > 2:
+        raise AnalysisBroken("R-PACK: %d of %d packing functions can no longer be decided (%s)" % (len(undecided), len(obs), ", ".join(undecided)))
+    return obs, {"functions": len(obs), "not_decided": undecided, "representation": "%dx%d field, %dx%d scalar" % (fn, W, sn, sw)}
 
 
 if __name__ == "__main__":
